@@ -549,6 +549,8 @@ pub fn t_stale_thread_waker(rng: &mut Rng, profile: &'static str, run_seed: u64,
     match rng.below(4) {
         0 => { let id = prog.add_op(0, Kind::Desync, Disp::None, vec![Step::Touch]); t2.push(TAct::Op(id)); }
         1 => { let id = prog.add_op(0, Kind::FutDesync, Disp::Detach, vec![Step::Touch, Step::Yield, Step::Touch]); t2.push(TAct::Op(id)); }
+        // a sync caller finds the queue Idle and not empty: it runs the suspended operation's next poll on its own thread
+        2 => { let id = prog.add_op(0, Kind::Sync, Disp::None, vec![Step::Touch]); t2.push(TAct::Op(id)); }
         _ => {}
     }
     prog.threads.push(t2);
@@ -723,7 +725,7 @@ pub fn generate(profile: &'static str, rng: &mut Rng, run_seed: u64, miri: bool)
     let r = rng.below(100);
     match profile {
         "C03" => if r < 45 { t_dormant(rng, profile, run_seed, miri) } else { mixed(rng, profile, &cfg, run_seed) },
-        "C04" => if r < 35 { t_multisync(rng, profile, run_seed, miri) } else if r < 55 { t_holds(rng, profile, run_seed, miri, true) } else { mixed(rng, profile, &cfg, run_seed) },
+        "C04" => if r < 35 { t_multisync(rng, profile, run_seed, miri) } else if r < 55 { t_holds(rng, profile, run_seed, miri, true) } else if r < 62 { t_stale_thread_waker(rng, profile, run_seed, miri) } else { mixed(rng, profile, &cfg, run_seed) },
         "C09" => if r < 25 { t_try_block(rng, profile, run_seed, miri) } else if r < 45 { t_try_hammer(rng, profile, run_seed, miri) } else if r < 55 { t_try_wake_window(rng, profile, run_seed, miri) } else if r < 63 { t_stale_thread_waker(rng, profile, run_seed, miri) } else { mixed(rng, profile, &cfg, run_seed) },
         "C10" => if r < 25 && !miri { t_raise(rng, profile, run_seed, miri) } else { t_holds(rng, profile, run_seed, miri, false) },
         "C11" => if r < 12 { t_pipe_chain(rng, profile, run_seed, miri) } else { t_pipe(rng, profile, run_seed, miri, false, false) },
